@@ -654,6 +654,35 @@ def run_memory(ctx, P, cg):
                "context after every message cannot decode the next one" %
                (callee, badv[1] if badv else "?", flag, "not what selects it"), None)
     A.flush()
+    # the streams are created from the FINAL negotiation result: in the negotiation function no window-bits member is written
+    # after alloc_compression() on any path (the default 'client did not limit itself: 15' included) - an inflater created before
+    # is smaller than what the answer allows the client to use
+    fre = P.fn("websocket.c:fill_requested_extension")
+    late = None
+    nal = 0
+    for v in Q.path_views(ctx, P, fre, loop_iters=1):
+        seen_alloc = False
+        for _, i in v.insts():
+            if i.op == "call" and i.callee and P.srcname_of(i.callee) == "alloc_compression":
+                seen_alloc = True
+                nal += 1
+            elif seen_alloc and i.op == "store":
+                d = P.term(fre, i.a[1])
+                if d[0] == "field" and d[3] in ("client_max_window_bits", "server_max_window_bits"):
+                    late = late or (v, i, d[3])
+    ctx.ob("C19.7 R-ORDER", fre, "streams-created-from-the-final-windows", late is None and nal > 0,
+           ("fill_requested_extension() writes %s at %s after alloc_compression() has created the zlib streams: the stream keeps the "
+            "earlier (smaller) window while the peer is told the later one" % (late[2], late[1].loc)) if late else
+           "alloc_compression() is the last thing the negotiation does with the windows", witness=late[0].witness() if late else None)
+    # the level a connection was constructed with decides, on both sides of every later test, whether frames are (de)compressed:
+    # it is written by websocket_init() only (a level reset somewhere else after the extension was announced makes the two
+    # directions disagree about RSV1)
+    writers = sorted({f.srcname for f in P.own_functions() for i in f.all_insts() if i.op == "store" and
+                      P.term(f, i.a[1])[0] == "field" and P.term(f, i.a[1])[3] == "compression_level" and
+                      Q.mentions(P.term(f, i.a[1]), lambda x: x[0] == "field" and x[3] == "extension_compression")})
+    ctx.ob("C19.7 R-WHO", P.fn("websocket.c:websocket_init"), "compression-level-written-at-construction-only", writers == ["websocket_init"],
+           "extension_compression.compression_level is written by %s: after the extension has been announced (accepted, RSV1 expected) a "
+           "changed level makes the receive and send paths skip (de)compression while the frames still carry compressed data" % writers)
     ctx.floor("C19.7 R-PAIR", 2)
     ctx.floor("C19.3 R-BOUND", 3)
     ctx.floor("C19.3 R-CURSOR", 5)
